@@ -187,7 +187,7 @@ impl<'a> HexStringLexer<'a> {
 
     fn next_non_whitespace_char(&mut self) -> Result<u8> {
         let mut byte = self.read_byte()?;
-        while byte == b' ' || byte == b'\t' || byte == b'\n' || byte == b'\r' || byte == b'\x0c' {
+        while byte == b' ' || byte == b'\t' || byte == b'\n' || byte == b'\r' || byte == b'\x0c' || byte == b'\0' {
             byte = self.read_byte()?;
         }
         Ok(byte)
